@@ -46,8 +46,11 @@ class Workdir:
 
 def run_main(argv):
     """exit code of main(argv); SystemExit (argparse) is reported by its code"""
+    import contextlib
+    import io as _io
     try:
-        return applications.main(["cutplace"] + argv)
+        with contextlib.redirect_stderr(_io.StringIO()), contextlib.redirect_stdout(_io.StringIO()):
+            return applications.main(["cutplace"] + argv)
     except SystemExit as e:
         return e.code if isinstance(e.code, int) else 2
     except BaseException as e:  # noqa
